@@ -678,34 +678,44 @@ output_prototype (OrcProgram *p, FILE *output, int backup)
   fprintf(output, ")");
 }
 
+/* emits the separator between two arguments of a generated call */
+#define CALL_ARG_SEP() do { \
+  if (need_comma) fprintf(output, ", "); \
+  need_comma = TRUE; \
+} while (0)
+
 void
 output_executor_backup_call (OrcProgram *p, FILE *output)
 {
   OrcVariable *var;
   int i;
+  int need_comma = FALSE;
 
   fprintf(output, "  %s (", p->backup_name);
   for(i=0;i<4;i++){
     var = &p->vars[ORC_VAR_D1 + i];
     if (var->size) {
-      fprintf(output, "ex->arrays[%s], ", enumnames[ORC_VAR_D1 + i]);
+      CALL_ARG_SEP();
+      fprintf(output, "ex->arrays[%s]", enumnames[ORC_VAR_D1 + i]);
       if (p->is_2d) {
-        fprintf(output, "ex->params[%s], ", enumnames[ORC_VAR_D1 + i]);
+        fprintf(output, ", ex->params[%s]", enumnames[ORC_VAR_D1 + i]);
       }
     }
   }
   for(i=0;i<4;i++){
     var = &p->vars[ORC_VAR_A1 + i];
     if (var->size) {
-      fprintf(output, "(void *)&ex->accumulators[%d], ", i);
+      CALL_ARG_SEP();
+      fprintf(output, "(void *)&ex->accumulators[%d]", i);
     }
   }
   for(i=0;i<8;i++){
     var = &p->vars[ORC_VAR_S1 + i];
     if (var->size) {
-      fprintf(output, "ex->arrays[%s], ", enumnames[ORC_VAR_S1 + i]);
+      CALL_ARG_SEP();
+      fprintf(output, "ex->arrays[%s]", enumnames[ORC_VAR_S1 + i]);
       if (p->is_2d) {
-        fprintf(output, "  ex->params[%s], ", enumnames[ORC_VAR_S1 + i]);
+        fprintf(output, ", ex->params[%s]", enumnames[ORC_VAR_S1 + i]);
       }
     }
   }
@@ -714,14 +724,17 @@ output_executor_backup_call (OrcProgram *p, FILE *output)
     if (var->size) {
       switch (var->param_type) {
         case ORC_PARAM_TYPE_INT:
-          fprintf(output, "ex->params[%s],", enumnames[ORC_VAR_P1 + i]);
+          CALL_ARG_SEP();
+          fprintf(output, "ex->params[%s]", enumnames[ORC_VAR_P1 + i]);
           break;
         case ORC_PARAM_TYPE_FLOAT:
-          fprintf(output, "((orc_union32 * )&ex->params[%s])->f, ",
+          CALL_ARG_SEP();
+          fprintf(output, "((orc_union32 * )&ex->params[%s])->f",
               enumnames[ORC_VAR_P1 + i]);
           break;
         case ORC_PARAM_TYPE_INT64:
-          fprintf(output, "(ex->params[%s] & 0xffffffff) | ((orc_uint64)(ex->params[%s]) << 32), ", enumnames[ORC_VAR_P1 + i], enumnames[ORC_VAR_T1 + i]);
+          CALL_ARG_SEP();
+          fprintf(output, "(ex->params[%s] & 0xffffffff) | ((orc_uint64)(ex->params[%s]) << 32)", enumnames[ORC_VAR_P1 + i], enumnames[ORC_VAR_T1 + i]);
           break;
         case ORC_PARAM_TYPE_DOUBLE:
           /* FIXME */
@@ -731,17 +744,14 @@ output_executor_backup_call (OrcProgram *p, FILE *output)
       }
     }
   }
-  if (p->constant_n) {
-    fprintf(output, "%d", p->constant_n);
-  } else {
+  /* the prototype has no n (m) parameter when it is a constant */
+  if (p->constant_n == 0) {
+    CALL_ARG_SEP();
     fprintf(output, "ex->n");
   }
-  if (p->is_2d) {
-    if (p->constant_m) {
-      fprintf(output, ",  %d", p->constant_m);
-    } else {
-      fprintf(output, ", ORC_EXECUTOR_M(ex)");
-    }
+  if (p->is_2d && p->constant_m == 0) {
+    CALL_ARG_SEP();
+    fprintf(output, "ORC_EXECUTOR_M(ex)");
   }
   fprintf(output, ");\n");
 }
@@ -751,49 +761,51 @@ output_backup_call (OrcProgram *p, FILE *output)
 {
   OrcVariable *var;
   int i;
+  int need_comma = FALSE;
 
   fprintf(output, "  %s (", p->backup_name);
   for(i=0;i<4;i++){
     var = &p->vars[ORC_VAR_D1 + i];
     if (var->size) {
-      fprintf(output, "%s, ", varnames[ORC_VAR_D1 + i]);
+      CALL_ARG_SEP();
+      fprintf(output, "%s", varnames[ORC_VAR_D1 + i]);
       if (p->is_2d) {
-        fprintf(output, "%s_stride, ", varnames[ORC_VAR_D1 + i]);
+        fprintf(output, ", %s_stride", varnames[ORC_VAR_D1 + i]);
       }
     }
   }
   for(i=0;i<4;i++){
     var = &p->vars[ORC_VAR_A1 + i];
     if (var->size) {
-      fprintf(output, "%s, ", varnames[ORC_VAR_A1 + i]);
+      CALL_ARG_SEP();
+      fprintf(output, "%s", varnames[ORC_VAR_A1 + i]);
     }
   }
   for(i=0;i<8;i++){
     var = &p->vars[ORC_VAR_S1 + i];
     if (var->size) {
-      fprintf(output, "%s, ", varnames[ORC_VAR_S1 + i]);
+      CALL_ARG_SEP();
+      fprintf(output, "%s", varnames[ORC_VAR_S1 + i]);
       if (p->is_2d) {
-        fprintf(output, "%s_stride, ", varnames[ORC_VAR_S1 + i]);
+        fprintf(output, ", %s_stride", varnames[ORC_VAR_S1 + i]);
       }
     }
   }
   for(i=0;i<8;i++){
     var = &p->vars[ORC_VAR_P1 + i];
     if (var->size) {
-        fprintf(output, "%s, ", varnames[ORC_VAR_P1 + i]);
+      CALL_ARG_SEP();
+      fprintf(output, "%s", varnames[ORC_VAR_P1 + i]);
     }
   }
-  if (p->constant_n) {
-    fprintf(output, "%d", p->constant_n);
-  } else {
+  /* the prototype has no n (m) parameter when it is a constant */
+  if (p->constant_n == 0) {
+    CALL_ARG_SEP();
     fprintf(output, "n");
   }
-  if (p->is_2d) {
-    if (p->constant_m) {
-      fprintf(output, ", %d", p->constant_m);
-    } else {
-      fprintf(output, ", m");
-    }
+  if (p->is_2d && p->constant_m == 0) {
+    CALL_ARG_SEP();
+    fprintf(output, "m");
   }
   fprintf(output, ");\n");
 }
